@@ -72,11 +72,37 @@ func accessPath(v ssa.Value) (ssa.Value, string) {
 			if _, ok := x.X.(*ssa.FieldAddr); ok {
 				return accessPath(x.X)
 			}
+			// a variable captured by a closure lives in a cell; if it is assigned exactly once, every load is that value
+			if a, ok := x.X.(*ssa.Alloc); ok {
+				if st := singleStore(a); st != nil {
+					return accessPath(st)
+				}
+			}
+			if fv, ok := x.X.(*ssa.FreeVar); ok {
+				return fv, "" // the captured variable itself (one cell per closure)
+			}
 		}
 	case *ssa.ChangeType:
 		return accessPath(x.X)
 	}
 	return v, ""
+}
+
+func singleStore(a *ssa.Alloc) ssa.Value {
+	var val ssa.Value
+	n := 0
+	if refs := a.Referrers(); refs != nil {
+		for _, r := range *refs {
+			if st, ok := r.(*ssa.Store); ok && st.Addr == a {
+				n++
+				val = st.Val
+			}
+		}
+	}
+	if n == 1 {
+		return val
+	}
+	return nil
 }
 
 func joinPath(a, b string) string {
@@ -189,15 +215,19 @@ func locksetObligations(w *World, pkg string, run *checkRun) []*Obligation {
 						continue
 					}
 					k := lockKey(baseRoot(b0), mu)
+					alias := "<" + structNameOf(baseRoot(b0).Type()) + "." + mu + ">"
 					switch name {
 					case "Lock":
 						s[k] = 'W'
+						s[alias] = 'W'
 					case "RLock":
 						if s[k] != 'W' {
 							s[k] = 'R'
+							s[alias] = 'R'
 						}
 					default:
 						delete(s, k)
+						delete(s, alias)
 					}
 				}
 			}
@@ -277,7 +307,11 @@ func locksetObligations(w *World, pkg string, run *checkRun) []*Obligation {
 						return // object allocated by this function: not yet shared
 					}
 					key := lockKey(root, joinPath(bpath, g.mu))
+					if strings.HasPrefix(g.mu, "<") {
+						key = g.mu // guarded by a lock of another object, identified by its type: <Type.mu>
+					}
 					write := false
+					argOf := ""
 					if refs := x.Referrers(); refs != nil {
 						for _, r := range *refs {
 							switch u := r.(type) {
@@ -291,6 +325,13 @@ func locksetObligations(w *World, pkg string, run *checkRun) []*Obligation {
 									case *types.Map, *types.Slice:
 										taint[u] = [3]string{key, sf, ""}
 									}
+									if urefs := u.Referrers(); urefs != nil {
+										for _, ur := range *urefs {
+											if c, ok := ur.(ssa.CallInstruction); ok {
+												argOf = calleeShort(c.Common())
+											}
+										}
+									}
 								}
 							}
 						}
@@ -298,6 +339,9 @@ func locksetObligations(w *World, pkg string, run *checkRun) []*Obligation {
 					what := "read"
 					if write {
 						what = "write"
+					}
+					if argOf != "" && !write && g.exempt[fname+":"+st.Field(x.Field).Name()+":arg-of-"+argOf] {
+						return
 					}
 					check(key, sf, write, x.Pos(), what)
 				case *ssa.Lookup:
